@@ -253,6 +253,27 @@ func (t *tr) litOfType(n ast.Node, v constant.Value, ty types.Type) string {
 
 type pre struct{ name, action string }
 
+// zeroValue: Go's zero value of a type, spelled so that simp can compute with it.
+func (t *tr) zeroValue(n ast.Node, ty types.Type) string {
+	if _, named := ty.(*types.Named); !named {
+		if b, ok := ty.Underlying().(*types.Basic); ok {
+			if b.Kind() == types.Bool {
+				return "false"
+			}
+			if isIntT(b) {
+				return "(0 : Int)"
+			}
+			if w, _, ok := width(b); ok {
+				return fmt.Sprintf("0#%d", w)
+			}
+		}
+	}
+	if nt, ok := ty.(*types.Named); ok && nt.Obj().Name() == "RegisterType" {
+		return "(0 : Reg)"
+	}
+	return "default"
+}
+
 func lowerFirst(s string) string {
 	if s == "" {
 		return s
@@ -854,7 +875,7 @@ func (t *tr) stmts(list []ast.Stmt, ind string, k cont) string {
 					sb.WriteString(t.bindPres(ind, pres, ""))
 					fmt.Fprintf(&sb, "%slet %s : %s := %s;\n", ind, leanIdent(n.Name), t.leanType(n, ty), v)
 				} else {
-					fmt.Fprintf(&sb, "%slet %s : %s := default;\n", ind, leanIdent(n.Name), t.leanType(n, ty))
+					fmt.Fprintf(&sb, "%slet %s : %s := %s;\n", ind, leanIdent(n.Name), t.leanType(n, ty), t.zeroValue(n, ty))
 				}
 			}
 		}
@@ -1561,7 +1582,11 @@ func genRisc(repo string, bytesFail map[string]bool) (riscOut, opsOut string, fa
 		} else {
 			ty = t.leanType(nil, f.Type())
 		}
-		fmt.Fprintf(&os_, "  %s : %s := default\n", f.Name(), ty)
+		zv := t.zeroValue(nil, f.Type())
+		if strings.HasPrefix(ty, "List ") {
+			zv = "[]"
+		}
+		fmt.Fprintf(&os_, "  %s : %s := %s\n", f.Name(), ty, zv)
 		exeFields = append(exeFields, f.Name())
 	}
 	os_.WriteString("  DirectWrites : List (Reg × Word) := []\n  deriving Repr, Inhabited, DecidableEq\n\n")
@@ -1579,7 +1604,11 @@ func genRisc(repo string, bytesFail map[string]bool) (riscOut, opsOut string, fa
 		fmt.Fprintf(&os_, "structure op_%s where\n", name)
 		for i := 0; i < st.NumFields(); i++ {
 			f := st.Field(i)
-			fmt.Fprintf(&os_, "  %s : %s := default\n", f.Name(), t.leanType(ts, f.Type()))
+			zv := t.zeroValue(ts, f.Type())
+			if b, ok := f.Type().Underlying().(*types.Basic); ok && b.Kind() == types.String {
+				zv = "\"\""
+			}
+			fmt.Fprintf(&os_, "  %s : %s := %s\n", f.Name(), t.leanType(ts, f.Type()), zv)
 			opFields[name] = append(opFields[name], [2]string{f.Name(), t.leanType(ts, f.Type())})
 		}
 		os_.WriteString("  deriving Repr, Inhabited, DecidableEq\n\n")
@@ -1661,6 +1690,34 @@ func genRisc(repo string, bytesFail map[string]bool) (riscOut, opsOut string, fa
 		}
 	}
 	facts["opcodes_without_forward_field"] = noFwd
+	// ofDump: rebuild an instruction from the field dump the Go harness prints (fmt %+v)
+	os_.WriteString("\n/-- rebuild an instruction from `name` and its `field=value` dump (driver use only) -/\ndef ofDump (name : String) (get : String → Option String) (fwd : Forward) : Option Instr :=\n")
+	os_.WriteString("  let reg (f : String) : Option Reg := (get f).bind String.toNat?\n  let word (f : String) : Option Word := ((get f).bind String.toInt?).map (BitVec.ofInt 32)\n  let str (f : String) : Option String := get f\n")
+	for i, o := range opNames {
+		kw := "if"
+		if i > 0 {
+			kw = "else if"
+		}
+		fmt.Fprintf(&os_, "  %s name == %q then do\n", kw, o)
+		var inits []string
+		for _, f := range opFields[o] {
+			switch f[1] {
+			case "Reg":
+				fmt.Fprintf(&os_, "    let f_%s ← reg %q\n", f[0], f[0])
+			case "BitVec 32":
+				fmt.Fprintf(&os_, "    let f_%s ← word %q\n", f[0], f[0])
+			case "String":
+				fmt.Fprintf(&os_, "    let f_%s ← str %q\n", f[0], f[0])
+			case "Forward":
+				fmt.Fprintf(&os_, "    let f_%s := fwd\n", f[0])
+			default:
+				die("opcodes.go: field %s.%s has type %s, which the dump reader does not know", o, f[0], f[1])
+			}
+			inits = append(inits, fmt.Sprintf("%s := f_%s", f[0], f[0]))
+		}
+		fmt.Fprintf(&os_, "    pure (.%s_ { %s })\n", o, strings.Join(inits, ", "))
+	}
+	os_.WriteString("  else none\n")
 	os_.WriteString("\nend Instr\nend Gen\n")
 	monadicRuns := []string{}
 	for _, o := range opNames {
